@@ -113,11 +113,12 @@ def judge(w, out, ctx, case, tag):
             if nok and ndis and seq.index("server_disconnected") < seq.index("server_connected"):
                 fail("server_disconnected:before-connected", "server %d: %r" % (idx, seq))
     # -- concurrency bound
-    skipped = [i for i, seq in per.items() if "server_connected" in seq and "server_disconnected" not in seq]
     for addr, n in sorted(w.net.max_open.items()):
         if n > 5:
-            # a socket whose handle_connection never ran keeps counting as open although its slot was released
-            fail("too-many-open-connections:" + ("with-never-handled-socket" if skipped else "all-handled"),
+            # a socket that is never closed (see the socket-leak clauses) keeps counting as open although its
+            # semaphore slot was released: then the bound is broken as a consequence, not by the semaphore logic
+            leaked = any(c["writer"] is not None and not c["writer"].closed and c["address"] == addr for c in w.net.calls)
+            fail("too-many-open-connections:" + ("with-leaked-socket" if leaked else "no-leaked-socket"),
                  "%d sockets open to %r at once" % (n, addr))
     # -- nothing left behind
     if out.ended == "ok" and out.error is None:
